@@ -560,13 +560,13 @@ def run(ctx):
 
   q = ctx.quick
   per = lambda a, b: (a if q else b) // ctx.n + 1   # noqa: E731
-  core.hyp_run(ctx, L.stub_case_strategy(HEADS), torc, per(4800, 100000),
+  core.hyp_run(ctx, L.stub_case_strategy(HEADS), torc, per(4800, 60000),
                name="c10_stub")
   core.hyp_run(ctx, L.order_case_strategy(HEADS), torc, per(1600, 40000),
                name="c10_order")
   core.hyp_run(ctx, L.exotic_case_strategy(HEADS), torc, per(2400, 60000),
                name="c10_exotic")
-  core.hyp_run(ctx, quant_case_strategy(), torc, per(480, 10000),
+  core.hyp_run(ctx, quant_case_strategy(), torc, per(480, 6000),
                name="c10_quant")
 
   # direction 2: random configurations
@@ -585,7 +585,7 @@ def run(ctx):
              sample_label="str_hyp")
     return [(sc, sig, d) for sc, sig, d, _ in fails]
 
-  core.hyp_run(ctx, scase(), sorc, per(240, 4000), name="c10_str")
+  core.hyp_run(ctx, scase(), sorc, per(240, 3000), name="c10_str")
 
   if not ctx.quick:
     left = ctx.time_left()
